@@ -44,9 +44,9 @@ def rule_assembly(ctx, r):
         except Raised as exc:
             r.violation(con, f"compiling a job script for a target with all options set raises {exc}", f"src/{mod.replace('.', '/')}.py")
             continue
-        except Unsupported as exc:
-            r.violation(con, f"the script builder is no longer a pure string assembly this analysis can follow ({exc})", f"src/{mod.replace('.', '/')}.py")
-            continue
+        except Unsupported as exc:   # a construct the checker's interpreter does not model: no verdict (exit 2), never a VIOLATION
+            from ..loader import AnalysisError
+            raise AnalysisError(f"{con}: the script builder uses a construct this analysis cannot follow ({exc})")
         lines = script.split("\n")
         ctx.shared[f"script:{name}"] = (fn, script, opts)
         where = fn.where
@@ -100,9 +100,12 @@ def rule_log_paths(ctx, r):
         for mode in modes:
             try:
                 fn, script = compile_script(ctx, mod, cname, {}, log_mode=mode)
-            except (Raised, Unsupported) as exc:
-                r.violation(con + f"::{mode}", f"compiling a script with no options (log mode {mode}) fails: {exc}", f"src/{mod.replace('.', '/')}.py")
+            except Raised as exc:
+                r.violation(con + f"::{mode}", f"compiling a script with no options (log mode {mode}) raises {exc}", f"src/{mod.replace('.', '/')}.py")
                 continue
+            except Unsupported as exc:
+                from ..loader import AnalysisError
+                raise AnalysisError(f"{con}: the script builder uses a construct this analysis cannot follow ({exc})")
             lines = [l[len(prefix):] for l in script.split("\n") if l.startswith(prefix)]
             outs = [l for l in lines if l.startswith(fixed["stdout"])]
             errs = [l for l in lines if l.startswith(fixed["stderr"])]
@@ -198,8 +201,8 @@ def rule_options(ctx, r):
                 r.violation(f"{con}::omitted-{opt}", f"when option `{opt}` was resolved to None (and therefore removed) the script builder raises {exc}", fn.where)
                 continue
             except Unsupported as exc:
-                r.violation(f"{con}::omitted-{opt}", f"cannot follow the builder without `{opt}` ({exc})", fn.where)
-                continue
+                from ..loader import AnalysisError
+                raise AnalysisError(f"{con}::omitted-{opt}: cannot follow the builder without `{opt}` ({exc})")
             ds = [l[len(prefix):] for l in sc.split("\n") if l.startswith(prefix)]
             leftover = [d for d in ds if any(d.startswith(p) for p in flags.get(opt, ())) and not (name == "sge" and opt in ("memory", "walltime") and False)]
             if name == "sge":
@@ -231,9 +234,12 @@ def rule_resolution(ctx, r):
         if "dry_run" in sb.params():
             kwargs["dry_run"] = False
         interp.call(sb, (target, ["dep"], backend, Obj("hashes")), kwargs)
-    except (Raised, Unsupported) as exc:
-        r.violation(con, f"option resolution cannot be evaluated: {exc}", sb.where)
+    except Raised as exc:
+        r.violation(con, f"submit_backend raises {exc.kind} while resolving the options of a target ({exc.detail[:80]})", sb.where)
         return
+    except Unsupported as exc:
+        from ..loader import AnalysisError
+        raise AnalysisError(f"{con}: option resolution cannot be evaluated ({exc})")
     got = captured.get("options")
     want = {"a": 1, "b": 5, "d": "mine"}
     if got != want:
@@ -351,8 +357,10 @@ def rule_spec_verbatim(ctx, r):
             got = interp.apply(interp.eval(conv, {}, tgt.module), [NASTY_SPEC], {}, 0)
             r.check(got == NASTY_SPEC, f"{tgt.module.relpath}::Target.spec", "the spec field's converter is the identity on text",
                     f"the spec field's converter turns an indented multi-line spec into {got!r}: the job script no longer runs the spec verbatim", tgt.where)
-        except (Raised, Unsupported) as exc:
-            r.violation(f"{tgt.module.relpath}::Target.spec", f"the spec field has a converter that cannot be shown to keep the text ({exc})", tgt.where)
+        except Raised as exc:
+            r.violation(f"{tgt.module.relpath}::Target.spec", f"the spec field's converter raises {exc.kind} on an indented multi-line spec", tgt.where)
+        except Unsupported as exc:
+            r.info(f"{tgt.module.relpath}::Target.spec", f"converter not evaluated ({exc})")
 
 
 def run(ctx):
